@@ -575,6 +575,8 @@ class SymCtx:
             raise Undecided("receiver aggregate")
         if k == "cast":
             return self.symlen(b, e[3], depth + 1)
+        if k == "repeat" and isinstance(e[1], int):
+            return [Poly.const(e[1])]
         if k == "call":
             name, args = e[1], e[2]
             if name in TRANSMUTE_NAMES or any(name.endswith(s) for s in PASS_THROUGH):
@@ -727,7 +729,7 @@ class SymCtx:
                 continue
             targets = [c[1] for c in t["cases"]] + [t["otherwise"]]
             if targets.count(s) != 1:
-                ok = False
+                ok = ok and self._irrelevant_cond(b, b.expr(t["o"], rich=True))
                 continue
             e = b.expr(t["o"], rich=True)
             case_vals = [c[0] for c in t["cases"] if c[1] == s]
@@ -735,20 +737,36 @@ class SymCtx:
                 inner = e[1]
                 if inner[0] == "call" and inner[1].endswith("Iterator::next"):
                     continue           # loop membership: carried by the loop-variable bounds
-                ok = False
+                ok = ok and self._irrelevant_cond(b, e)
                 continue
             try:
                 if e[0] == "bin" and e[1] in ("Gt", "Lt", "Ge", "Le", "Eq", "Ne"):
                     truth = not (case_vals == [0])
                     if case_vals and case_vals != [0] and case_vals != [1]:
-                        ok = False
+                        ok = ok and self._irrelevant_cond(b, e)
                         continue
                     if case_vals == [1]:
                         truth = True
                     op = e[1] if truth else {"Gt": "Le", "Lt": "Ge", "Ge": "Lt", "Le": "Gt", "Eq": "Ne", "Ne": "Eq"}[e[1]]
                     conds.append((self.sym(b, e[2], depth + 1), op, self.sym(b, e[3], depth + 1)))
+                elif e[0] == "call" and e[1].endswith("<impl [T]>::is_empty") and len(e[2]) == 1:
+                    truth = not (case_vals == [0])
+                    alts = self.symlen(b, e[2][0], depth + 1)
+                    if len(alts) != 1:
+                        ok = ok and self._irrelevant_cond(b, e)
+                    else:
+                        conds.append((alts[0], "Eq" if truth else "Ne", Poly.const(0)))
                 elif e[0] == "un" and e[1] == "Not":
-                    ok = False
+                    inner = e[2]
+                    if inner[0] == "call" and inner[1].endswith("<impl [T]>::is_empty") and len(inner[2]) == 1:
+                        truth = (case_vals == [0])
+                        alts = self.symlen(b, inner[2][0], depth + 1)
+                        if len(alts) != 1:
+                            ok = ok and self._irrelevant_cond(b, e)
+                        else:
+                            conds.append((alts[0], "Eq" if truth else "Ne", Poly.const(0)))
+                    else:
+                        ok = ok and self._irrelevant_cond(b, e)
                 else:
                     v = self.sym(b, e, depth + 1)
                     if case_vals:
@@ -757,7 +775,7 @@ class SymCtx:
                         for c in t["cases"]:
                             conds.append((v, "Ne", Poly.const(c[0])))
             except Undecided:
-                ok = False
+                ok = ok and self._irrelevant_cond(b, e)
         if b.kind == "Closure":
             parent = self.F.bodies.get(b.r["parent"])
             if parent is not None:
@@ -768,6 +786,10 @@ class SymCtx:
                         ok = ok and ok2
                         break
         return conds, ok
+
+    def _irrelevant_cond(self, b, e):
+        """May a dominating condition that could not be expressed be ignored when refuting? (default: never)"""
+        return False
 
     # ---- proving D >= 0
     def prove(self, D, conds):
